@@ -570,10 +570,11 @@ func (e *Exec) sortSlice(st *State, args []Value, where string) Value {
 	e.smt.declareFun(perm, []string{SInt}, SInt)
 	e.smt.declareFun(inv, []string{SInt}, SInt)
 	off, ln := slOff(s).S, slLen(s).S
-	e.assume(st, Term{fmt.Sprintf("(forall ((i Int)) (! (=> (and (<= 0 i) (< i %s)) (and (<= 0 (%s i)) (< (%s i) %s) (= (%s (%s i)) i) (= (select %s (+ %s i)) (select %s (+ %s (%s i)))))) :pattern ((select %s (+ %s i))) :pattern ((%s i))))",
-		ln, perm, perm, ln, inv, perm, newA.S, off, oldA.S, off, perm, newA.S, off, perm), SBool})
-	e.assume(st, Term{fmt.Sprintf("(forall ((j Int)) (! (=> (and (<= 0 j) (< j %s)) (and (<= 0 (%s j)) (< (%s j) %s) (= (%s (%s j)) j) (= (select %s (+ %s j)) (select %s (+ %s (%s j)))))) :pattern ((select %s (+ %s j))) :pattern ((%s j))))",
-		ln, inv, inv, ln, perm, inv, oldA.S, off, newA.S, off, inv, oldA.S, off, inv), SBool})
+	sx := func(i string) string { return fmt.Sprintf("(sidx %s %s)", s.S, i) } // the index terms programs and contracts use
+	e.assume(st, Term{fmt.Sprintf("(forall ((i Int)) (! (=> (and (<= 0 i) (< i %s)) (and (<= 0 (%s i)) (< (%s i) %s) (= (%s (%s i)) i) (= (select %s %s) (select %s %s)))) :pattern ((select %s %s)) :pattern ((%s i))))",
+		ln, perm, perm, ln, inv, perm, newA.S, sx("i"), oldA.S, sx("("+perm+" i)"), newA.S, sx("i"), perm), SBool})
+	e.assume(st, Term{fmt.Sprintf("(forall ((j Int)) (! (=> (and (<= 0 j) (< j %s)) (and (<= 0 (%s j)) (< (%s j) %s) (= (%s (%s j)) j) (= (select %s %s) (select %s %s)))) :pattern ((select %s %s)) :pattern ((%s j))))",
+		ln, inv, inv, ln, perm, inv, oldA.S, sx("j"), newA.S, sx("("+inv+" j)"), oldA.S, sx("j"), inv), SBool})
 	e.assume(st, Term{fmt.Sprintf("(forall ((a Int)) (! (=> (or (< a %s) (>= a (+ %s %s))) (= (select %s a) (select %s a))) :pattern ((select %s a))))", off, off, ln, newA.S, oldA.S, newA.S), SBool})
 	// order: for i < j, not less(j, i)
 	var fn *ssa.Function
@@ -599,7 +600,7 @@ func (e *Exec) sortSlice(st *State, args []Value, where string) Value {
 	e.quant--
 	if out != nil && len(rs) == 1 {
 		lt := rs[0].(Term)
-		e.assume(st, Term{fmt.Sprintf("(forall ((si!i Int) (si!j Int)) (! (=> (and (<= 0 si!i) (< si!i si!j) (< si!j %s)) (not %s)) :pattern ((select %s (+ %s si!i)) (select %s (+ %s si!j)))))", ln, lt.S, newA.S, off, newA.S, off), SBool})
+		e.assume(st, Term{fmt.Sprintf("(forall ((si!i Int) (si!j Int)) (! (=> (and (<= 0 si!i) (< si!i si!j) (< si!j %s)) (not %s)) :pattern ((select %s %s) (select %s %s))))", ln, lt.S, newA.S, sx("si!i"), newA.S, sx("si!j")), SBool})
 	}
 	return &Tuple{}
 }
